@@ -24,6 +24,17 @@ def _e1(pid, wall_q=75, wall_t=900, min_q=20, min_t=100, assumptions=None):
 for _p in ('C01', 'C02', 'C03', 'C04', 'C05', 'C06', 'C07', 'C09', 'C10', 'C12', 'C16', 'C17', 'C18', 'C20'):
     _e1(_p)
 
+for _p in ('C01', 'C02', 'C03'):
+    # every 20th case runs the real TCP stack on simulated sockets (E2) with protocol oracles, see rv/e1x.py
+    PROPS[_p]['engine'] = 'rv.e1x'
+    PROPS[_p]['rule'] = E1_RULE + (' Every 20th case is instead one run of real nodes over the real TCPTransport/TcpServer/TcpConnection on simulated '
+                                   'sockets (file journals, connection faults, kills and restarts, unique command ids) with the protocol oracles of '
+                                   'rv.e2.Proto; it is non-trivial if the cluster converged and the common sequence is not empty.')
+    PROPS[_p]['assumptions'] = ['E1 cases: transport modelled at message level with the connection rules of TCPTransport; E2 cases: byte-level '
+                                'simulated sockets under the real transport code',
+                                'virtual time: every clock read advances 20 microseconds; nodes keep their memory unless the scenario kills them',
+                                'only the schedules drawn by the seeded adversary are covered']
+
 PROPS['C08'] = {
     'engine': 'rv.journalfuzz', 'level': 'fault_enumeration',
     'rule': ('one case = a seeded sequence of 40 journal operations (add of 0 B .. several times the current file size, drop tail, drop '
